@@ -11,6 +11,10 @@
 //! Bound: 12 hand-written + 60 (deep: 4000) histories of 4 law instances over operand terms of depth <= 1 with 3 slot
 //! names (all subterms, a slot-permuted copy of each side and parents of the sides that re-use one of their slots are
 //! inserted before any union and kept as handles), unions in fixed-seed order.
+//! Second oracle (binders): 10 hand-written + 150 (deep: 3000) e-graphs of terms over lam / letrev (binder after a child) /
+//! pin (binder after a slot) / nest (two binders) / case (two sibling binders) with the names $0 $1 $2 $x (depth <= 3,
+//! shadowing, a bound name that is also free, name-swapped copies) with NO union: two inserted terms must be equal exactly if they are
+//! alpha-equivalent (de Bruijn forms agree), and the slots of the returned invocation must be the term's free slots.
 //! also-with-features: checks
 use crate::*;
 
@@ -21,6 +25,13 @@ define_language! {
         Mul(AppliedId, AppliedId) = "mul",
         Sub(AppliedId, AppliedId) = "sub",
         Neg(AppliedId) = "neg",
+        Lam(Bind<AppliedId>) = "lam",
+        App(AppliedId, AppliedId) = "app",
+        // binders that are NOT the first slot-carrying component of their node
+        LetRev(AppliedId, Bind<AppliedId>) = "letrev",
+        Pin(Slot, Bind<AppliedId>) = "pin",
+        Nest(Bind<Bind<AppliedId>>) = "nest",
+        Case(Bind<AppliedId>, Bind<AppliedId>) = "case",
         Zero() = "zero",
         One() = "one",
     }
@@ -41,7 +52,90 @@ fn eval(re: &RecExpr<ML>, env: &dyn Fn(Slot) -> u64) -> u64 {
         ML::Neg(..) => (P - c[0]) % P,
         ML::Zero() => 0,
         ML::One() => 1,
+        _ => unreachable!("the model part of the harness has no binders"),
     }
+}
+
+// ---- second oracle: with NO union asserted, two inserted terms are equal exactly if they are alpha-equivalent, and the
+// slots of a term's class are exactly its free slots
+fn de_bruijn(t: &RecExpr<ML>, env: &mut Vec<Slot>) -> String {
+    let name = |s: &Slot, env: &Vec<Slot>| match env.iter().rposition(|x| x == s) { Some(i) => format!("b{}", env.len() - 1 - i), None => format!("{}", s) };
+    let under = |binders: &[Slot], c: &RecExpr<ML>, env: &mut Vec<Slot>| { for b in binders { env.push(*b); } let r = de_bruijn(c, env); for _ in binders { env.pop(); } r };
+    match &t.node {
+        ML::Var(s) => name(s, env),
+        ML::Lam(b) => format!("(lam {})", under(&[b.slot], &t.children[0], env)),
+        ML::LetRev(_, b) => format!("(letrev {} {})", de_bruijn(&t.children[0], env), under(&[b.slot], &t.children[1], env)),
+        ML::Pin(s, b) => format!("(pin {} {})", name(s, env), under(&[b.slot], &t.children[0], env)),
+        ML::Nest(b) => format!("(nest {})", under(&[b.slot, b.elem.slot], &t.children[0], env)),
+        ML::Case(a, b) => format!("(case {} {})", under(&[a.slot], &t.children[0], env), under(&[b.slot], &t.children[1], env)),
+        n => { let cs: Vec<String> = t.children.iter().map(|c| de_bruijn(c, env)).collect(); format!("({:?}#{} {})", std::mem::discriminant(n), t.children.len(), cs.join(" ")) }
+    }
+}
+fn free_of(t: &RecExpr<ML>, env: &mut Vec<Slot>, out: &mut Vec<Slot>) {
+    let mut note = |s: &Slot, env: &Vec<Slot>, out: &mut Vec<Slot>| if !env.contains(s) && !out.contains(s) { out.push(*s); };
+    match &t.node {
+        ML::Var(s) => note(s, env, out),
+        ML::Lam(b) => { env.push(b.slot); free_of(&t.children[0], env, out); env.pop(); }
+        ML::LetRev(_, b) => { free_of(&t.children[0], env, out); env.push(b.slot); free_of(&t.children[1], env, out); env.pop(); }
+        ML::Pin(s, b) => { note(s, env, out); env.push(b.slot); free_of(&t.children[0], env, out); env.pop(); }
+        ML::Nest(b) => { env.push(b.slot); env.push(b.elem.slot); free_of(&t.children[0], env, out); env.pop(); env.pop(); }
+        ML::Case(a, b) => { env.push(a.slot); free_of(&t.children[0], env, out); env.pop(); env.push(b.slot); free_of(&t.children[1], env, out); env.pop(); }
+        _ => for c in &t.children { free_of(c, env, out); },
+    }
+}
+/// the crate's well-formedness rule for one node (Language::check): a name bound by the node must not also occur free in the
+/// node outside that binder's scope (in a sibling component, or below a sibling binder); nested binders of one node differ
+fn well_formed(t: &RecExpr<ML>) -> bool {
+    let fv = |c: &RecExpr<ML>| { let mut o = Vec::new(); free_of(c, &mut Vec::new(), &mut o); o };
+    let ok = match &t.node {
+        ML::LetRev(_, b) => !fv(&t.children[0]).contains(&b.slot),
+        ML::Pin(s, b) => *s != b.slot,
+        ML::Nest(b) => b.slot != b.elem.slot,
+        ML::Case(a, b) => { let (fa, fb) = (fv(&t.children[0]), fv(&t.children[1])); !(fb.contains(&a.slot) && a.slot != b.slot) && !(fa.contains(&b.slot) && a.slot != b.slot) && (a.slot != b.slot || true) }
+        _ => true,
+    };
+    ok && t.children.iter().all(well_formed)
+}
+fn lterm(r: &mut Rng, depth: u32) -> String {
+    // the numeric names $0..$2 are also the names shapes give to their slots
+    let nm = |r: &mut Rng| ["$0", "$1", "$2", "$x"][r.next(4) as usize];
+    let v = |r: &mut Rng| format!("(var {})", nm(r));
+    if depth == 0 { return if r.next(5) == 0 { "one".to_string() } else { v(r) }; }
+    match r.next(12) {
+        0 | 1 | 2 => format!("(lam {} {})", nm(r), lterm(r, depth - 1)),
+        3 | 4 => format!("(app {} {})", lterm(r, depth - 1), lterm(r, depth - 1)),
+        5 => format!("(add {} {})", lterm(r, depth - 1), lterm(r, depth - 1)),
+        6 | 7 => format!("(letrev {} {} {})", lterm(r, depth - 1), nm(r), lterm(r, depth - 1)),
+        8 => format!("(pin {} {} {})", nm(r), nm(r), lterm(r, depth - 1)),
+        9 => { let a = nm(r); let mut b = nm(r); if a == b { b = if a == "$x" { "$0" } else { "$x" }; } format!("(nest {} {} {})", a, b, lterm(r, depth - 1)) }
+        10 => format!("(case {} {} {} {})", nm(r), lterm(r, depth - 1), nm(r), lterm(r, depth - 1)),
+        _ => v(r),
+    }
+}
+/// the same text with two of the names $1..$3 exchanged everywhere (bound and free occurrences alike): an alpha-variant
+/// where only bound names are hit, a different term where free names are hit
+fn swap_names(t: &str, a: u64, b: u64) -> String {
+    let names = ["$0", "$1", "$2", "$x"];
+    let (a, b) = (names[(a as usize) % 4], names[(b as usize) % 4]);
+    t.replace(a, "$A").replace(b, a).replace("$A", b)
+}
+fn alpha_history(texts: &[String], desc: &str) -> Result<(), String> {
+    let mut eg = MG::default();
+    let terms: Vec<RecExpr<ML>> = texts.iter().map(|t| RecExpr::<ML>::parse(t).unwrap()).filter(well_formed).collect();
+    let hs: Vec<AppliedId> = terms.iter().map(|t| eg.add_expr(t.clone())).collect();
+    for i in 0..terms.len() {
+        let mut fs = Vec::new(); free_of(&terms[i], &mut Vec::new(), &mut fs);
+        let mut cs: Vec<Slot> = hs[i].slots().into_iter().collect(); cs.sort(); fs.sort();
+        if cs != fs { return Err(format!("C01:syntactic.slots {}: the invocation returned for {} has the slots {:?}, its free slots are {:?} (nothing was united)", desc, terms[i], cs, fs)); }
+        for j in (i + 1)..terms.len() {
+            let same = de_bruijn(&terms[i], &mut Vec::new()) == de_bruijn(&terms[j], &mut Vec::new());
+            let got = eg.eq(&hs[i], &hs[j]);
+            if got && !same { return Err(format!("C01:syntactic.eq-sound {}: {} and {} are reported equal although nothing was united and they are not alpha-equivalent", desc, terms[i], terms[j])); }
+            if !got && same { return Err(format!("C01:syntactic.alpha {}: {} and {} are alpha-equivalent but reported unequal", desc, terms[i], terms[j])); }
+        }
+    }
+    eg.check();
+    Ok(())
 }
 fn free_slots(re: &RecExpr<ML>, out: &mut Vec<Slot>) {
     if let ML::Var(s) = &re.node { if !out.contains(s) { out.push(*s); } }
@@ -165,6 +259,36 @@ pub fn run(only: &[String]) -> Vec<String> {
             verif_case(desc.clone());
             if let Err(e) = run_history(&pairs, &extra, &order, &desc) { if n < 3 { n += 1; let (c, m) = e.split_once(' ').unwrap(); fails.push(format!("FAIL EGraph::eq {} {}", c, m)); } }
         }
+    }
+    // binders: nothing is united, equality must be alpha-equivalence
+    let hand_l: Vec<Vec<&str>> = vec![
+        vec!["(lam $1 (add (var $1) (var $2)))", "(lam $1 (add (var $2) (var $1)))", "(lam $3 (add (var $3) (var $2)))", "(lam $2 (add (var $2) (var $2)))", "(lam $2 (add (var $2) (var $1)))"],
+        vec!["(lam $1 (lam $2 (app (var $1) (var $2))))", "(lam $2 (lam $1 (app (var $2) (var $1))))", "(lam $1 (lam $2 (app (var $2) (var $1))))", "(lam $1 (lam $1 (app (var $1) (var $1))))", "(lam $1 (lam $2 (app (var $2) (var $2))))"],
+        vec!["(app (lam $1 (var $1)) (var $1))", "(app (lam $2 (var $2)) (var $1))", "(app (lam $1 (var $1)) (var $2))", "(app (lam $1 (var $2)) (var $1))"],
+        vec!["(lam $1 (app (var $1) (lam $1 (var $1))))", "(lam $1 (app (var $1) (lam $2 (var $2))))", "(lam $1 (app (var $1) (lam $2 (var $1))))", "(lam $2 (app (var $2) (lam $1 (var $2))))"],
+        vec!["(add (lam $1 (var $1)) (lam $1 (var $2)))", "(add (lam $2 (var $2)) (lam $3 (var $2)))", "(add (lam $1 (var $2)) (lam $1 (var $1)))", "(lam $1 (lam $2 (lam $3 (add (var $1) (add (var $2) (var $3))))))", "(lam $3 (lam $2 (lam $1 (add (var $3) (add (var $2) (var $1))))))", "(lam $3 (lam $2 (lam $1 (add (var $1) (add (var $2) (var $3))))))"],
+    ];
+    let hand_l: Vec<Vec<&str>> = hand_l.into_iter().chain(vec![
+        vec!["(letrev (var $1) $x (var $1))", "(letrev (var $1) $x (var $x))", "(letrev (var $0) $x (var $0))", "(letrev (var $1) $0 (var $1))", "(letrev (var $1) $1 (var $1))"],
+        vec!["(nest $x $y (var $1))", "(nest $x $y (var $y))", "(nest $x $y (var $x))", "(nest $x $y (var $0))", "(nest $0 $1 (var $1))", "(nest $1 $0 (var $0))"],
+        vec!["(pin $1 $x (var $1))", "(pin $1 $x (var $x))", "(pin $0 $x (var $0))", "(pin $1 $0 (var $1))", "(pin $0 $1 (var $1))"],
+        vec!["(case $x (var $1) $y (var $1))", "(case $x (var $x) $y (var $y))", "(case $x (var $1) $y (var $y))", "(case $0 (var $0) $1 (var $1))", "(case $x (var $0) $y (var $1))"],
+        vec!["(lam $1 (letrev (var $1) $x (var $1)))", "(lam $1 (letrev (var $1) $x (var $x)))", "(lam $0 (nest $x $y (app (var $0) (var $1))))", "(lam $0 (nest $x $y (app (var $0) (var $y))))"],
+    ]).collect();
+    for texts in hand_l {
+        let texts: Vec<String> = texts.iter().map(|x| x.to_string()).collect();
+        let desc = format!("inserted (no union): {:?}", texts);
+        verif_case(desc.clone());
+        if let Err(e) = alpha_history(&texts, &desc) { if n < 3 { n += 1; let (c, m) = e.split_once(' ').unwrap(); fails.push(format!("FAIL EGraph::eq {} {}", c, m)); } }
+    }
+    let lseeds: u64 = if deep { verif_scale(3000) } else { 150 };
+    for seed in 1..=lseeds {
+        let mut r = Rng(seed.wrapping_mul(0xD1B54A32D192ED03).wrapping_add(9));
+        let mut texts: Vec<String> = Vec::new();
+        for _ in 0..3 { let t = lterm(&mut r, 3); let (a, b) = (r.next(4), r.next(4)); if a != b { texts.push(swap_names(&t, a, b)); } texts.push(t); }
+        let desc = format!("inserted (no union, seed {}): {:?}", seed, texts);
+        verif_case(desc.clone());
+        if let Err(e) = alpha_history(&texts, &desc) { if n < 3 { n += 1; let (c, m) = e.split_once(' ').unwrap(); fails.push(format!("FAIL EGraph::eq {} {}", c, m)); } }
     }
     let seeds: u64 = if deep { verif_scale(4000) } else { 60 };
     for seed in 1..=seeds {
